@@ -41,7 +41,7 @@ from pycdlib import utils
 
 # For mypy annotations
 if False:  # pylint: disable=using-constant-test
-    from typing import Any, BinaryIO, Callable, Deque, Dict, Generator, IO, List, Optional, Tuple, Union  # NOQA pylint: disable=unused-import
+    from typing import Any, BinaryIO, Callable, Deque, Dict, Generator, IO, List, Optional, Set, Tuple, Union  # NOQA pylint: disable=unused-import
 
 # There are a number of specific ways that numerical data is stored in the
 # ISO9660/Ecma-119 standard.  In the text these are reference by the section
@@ -1079,6 +1079,7 @@ class PyCdlib:
         child_links = []
         lastbyte = 0
         seen_dir_extents = {root_dir_record.extent_location()}
+        seen_dir_blocks = set()  # type: Set[int]
         dirs = collections.deque([root_dir_record])
         while dirs:
             dir_record = dirs.popleft()
@@ -1088,6 +1089,17 @@ class PyCdlib:
             offset = 0
             last_record = None  # type: Optional[dr.DirectoryRecord]
             data = cdfp.read(length)
+
+            # Only the first extent of a directory is known to be unique.
+            # Directories must not share any other block either; the records
+            # in it would be parsed once for each of the directories, and a
+            # number of directories that step through one area of records
+            # takes time and memory quadratic in the size of the ISO.
+            for block in range(dir_record.extent_location(),
+                               dir_record.extent_location() + utils.ceiling_div(len(data), self.logical_block_size)):
+                if block in seen_dir_blocks:
+                    raise pycdlibexception.PyCdlibInvalidISO('The directory at extent %d overlaps another directory' % (dir_record.extent_location()))
+                seen_dir_blocks.add(block)
             while offset < length:
                 if offset > (len(data) - 1):
                     # The data we read off of the ISO was shorter than what we
